@@ -61,3 +61,46 @@ def random_query(rng, gd, max_size=2, with_conditions=False, allow_empty_x=False
     if not X and lo == 1:
         return None
     return {"X": sorted(X), "Y": sorted(Y), "Z": sorted(Z), "cls": cls}
+
+
+CALL_FORMS = ("outcomes", "identify", "from_expression", "from_parts", "from_str", "single")
+
+
+def call_id(g, q, form):
+    """Drive ID / IDC through one of the public call forms.  -> estimand or None (refusal); other exceptions propagate.
+    q: dict(X, Y, Z) of names."""
+    from y0.algorithm.identify import Identification, Query, idc, identify, identify_outcomes
+    from y0.algorithm.identify.utils import Unidentifiable
+    from y0.dsl import P, Variable
+
+    X = {Variable(x) for x in q["X"]}
+    Y = {Variable(y) for y in q["Y"]}
+    Z = {Variable(z) for z in q.get("Z") or []}
+    if form == "outcomes":
+        return identify_outcomes(g, X, Y, Z) if Z else identify_outcomes(g, X, Y)
+    if form == "single" and len(X) == 1 and len(Y) == 1 and len(Z) <= 1:
+        args = (next(iter(X)), next(iter(Y))) + ((next(iter(Z)),) if Z else ())
+        return identify_outcomes(g, *args)
+    if form == "from_str":
+        query = Query.from_str(sorted(q["Y"]), sorted(q["X"]), sorted(q["Z"]) if Z else None)
+        ident = Identification(query=query, graph=g)
+    elif form == "from_parts":
+        ident = Identification.from_parts(outcomes=Y, treatments=X, graph=g, conditions=Z or None)
+    elif form == "from_expression" and X:
+        ys = sorted(Y, key=str)
+        zs = sorted(Z, key=str)
+        expr = P[sorted(X, key=str)](ys[0] if len(ys) == 1 and not zs else (ys if not zs else _dist(ys, zs)))
+        ident = Identification.from_expression(query=expr, graph=g)
+    else:
+        ident = Identification(query=Query(outcomes=Y, treatments=X, conditions=Z), graph=g)
+    try:
+        return idc(ident) if Z else identify(ident)
+    except Unidentifiable:
+        return None
+
+
+def _dist(ys, zs):
+    d = ys[0]
+    for y in ys[1:]:
+        d = d & y
+    return d | zs
